@@ -385,8 +385,8 @@ Proof.
   - (* put *)
     pose proof (ensure_bucket_inv c s b Hi) as H1.
     destruct (ensure_bucket c s b) as [s1 [e|]]; [exact H1|]. cbn [fst] in H1.
-    pose proof (put_object_inv s1 b k body m H1) as H2.
-    destruct (put_object s1 b k body m) as [s2 [[e|] vid]]; exact H2.
+    pose proof (put_object_inv s1 b k body (carry_meta s1 b k m) H1) as H2.
+    destruct (put_object s1 b k body (carry_meta s1 b k m)) as [s2 [[e|] vid]]; exact H2.
   - (* get *)
     pose proof (ensure_bucket_inv c s b Hi) as H1.
     destruct (ensure_bucket c s b) as [s1 [e|]]; [exact H1|]. cbn [fst] in H1.
@@ -422,8 +422,8 @@ Proof.
     pose proof (ensure_bucket_inv c s b Hi) as H1.
     destruct (ensure_bucket c s b) as [s1 [e|]]; [exact H1|]. cbn [fst] in H1.
     destruct (get_object s1 sb sk) as [e|v sv]; [exact H1|].
-    pose proof (put_object_inv s1 b k (vd_body v) (merge_meta m (vd_meta v)) H1) as H2.
-    destruct (put_object s1 b k (vd_body v) (merge_meta m (vd_meta v))) as [s2 [[e|] vid]]; exact H2.
+    pose proof (put_object_inv s1 b k (vd_body v) (carry_meta s1 b k (merge_meta m (vd_meta v))) H1) as H2.
+    destruct (put_object s1 b k (vd_body v) (carry_meta s1 b k (merge_meta m (vd_meta v)))) as [s2 [[e|] vid]]; exact H2.
   - (* set versioning *)
     pose proof (ensure_bucket_inv c s b Hi) as H1.
     destruct (ensure_bucket c s b) as [s1 [e|]]; [exact H1|]. cbn [fst] in H1.
@@ -587,7 +587,7 @@ Proof.
   - (* put *)
     destruct (ensure_bucket c s b) as [s1 [e|]] eqn:Ee.
     { apply ensure_bucket_err in Ee. destruct Ee as [-> _]. discriminate. }
-    destruct (put_object s1 b k body m) as [s2 [[e|] vid]] eqn:Ep; [|discriminate].
+    destruct (put_object s1 b k body (carry_meta s1 b k m)) as [s2 [[e|] vid]] eqn:Ep; [|discriminate].
     apply put_object_err in Ep. destruct Ep as [-> _]. discriminate.
   - (* get *)
     pose proof (ensure_bucket_inv c s b Hi) as H1.
@@ -632,7 +632,7 @@ Proof.
     cbn [fst] in H1.
     pose proof (get_object_no_panic s1 sb sk H1) as Hg.
     destruct (get_object s1 sb sk) as [e|v sv]; [cbn [snd]; congruence|].
-    destruct (put_object s1 b k (vd_body v) (merge_meta m (vd_meta v))) as [s2 [[e|] vid]] eqn:Ep; [|discriminate].
+    destruct (put_object s1 b k (vd_body v) (carry_meta s1 b k (merge_meta m (vd_meta v)))) as [s2 [[e|] vid]] eqn:Ep; [|discriminate].
     apply put_object_err in Ep. destruct Ep as [-> _]. discriminate.
   - (* set versioning *)
     destruct (ensure_bucket c s b) as [s1 [e|]] eqn:Ee.
@@ -708,17 +708,22 @@ Proof.
   intros H; inversion H; subst. exists bk'. unfold get_bucket. cbn [st_buckets]. apply get_set_eq.
 Qed.
 
-(* read-your-writes *)
+(* read-your-writes; the metadata read back is what MergeMetadata ([carry_meta]) makes of the
+   metadata sent and the replaced object's: everything sent is there *)
 Lemma law_get_after_put c s b k body m s1 vid :
   step c s (OPut b k body m) = (s1, RPut vid) ->
-  exists v sv, snd (step c s1 (OGet b k None)) = RObj v sv /\ vd_body v = body /\ vd_meta v = m.
+  exists v sv, snd (step c s1 (OGet b k None)) = RObj v sv /\ vd_body v = body /\
+               vd_meta v = carry_meta (fst (ensure_bucket c s b)) b k m /\
+               (forall kv, In kv m -> In kv (vd_meta v)).
 Proof.
   cbn [step]. destruct (ensure_bucket c s b) as [s0 [e|]] eqn:Ee; [discriminate|].
-  destruct (put_object s0 b k body m) as [s2 [[e|] vid']] eqn:Ep; [discriminate|].
+  destruct (put_object s0 b k body (carry_meta s0 b k m)) as [s2 [[e|] vid']] eqn:Ep; [discriminate|].
   intros H; inversion H; subst; clear H.
   destruct (put_object_bucket _ _ _ _ _ _ _ Ep) as [bk' Hb'].
   destruct (get_after_put _ _ _ _ _ _ _ Ep) as (v & sv & Hg & H1 & H2 & _).
-  rewrite (ensure_bucket_present c _ _ _ Hb'). rewrite Hg. cbn [snd]. eauto.
+  rewrite (ensure_bucket_present c _ _ _ Hb'). rewrite Hg. cbn [fst snd].
+  exists v, sv. split; [reflexivity|]. split; [exact H1|]. split; [exact H2|].
+  intros kv Hin. rewrite H2. apply carry_meta_keeps. exact Hin.
 Qed.
 
 (* a put changes no other key of any bucket that existed before it *)
@@ -729,7 +734,7 @@ Proof.
   intros Hne Hb'. cbn [step].
   destruct (ensure_bucket c s b) as [s0 [e|]] eqn:Ee.
   { cbn [fst]. eapply ensure_bucket_get_other; eassumption. }
-  destruct (put_object s0 b k body m) as [s2 [[e|] vid]] eqn:Ep; cbn [fst].
+  destruct (put_object s0 b k body (carry_meta s0 b k m)) as [s2 [[e|] vid]] eqn:Ep; cbn [fst].
   - rewrite (get_put_other _ _ _ _ _ _ _ _ _ Ep Hne). eapply ensure_bucket_get_other; eassumption.
   - rewrite (get_put_other _ _ _ _ _ _ _ _ _ Ep Hne). eapply ensure_bucket_get_other; eassumption.
 Qed.
@@ -835,7 +840,7 @@ Lemma law_copy c s sb sk b k m s1 body :
 Proof.
   cbn [step]. destruct (ensure_bucket c s b) as [s0 [e|]] eqn:Ee; [discriminate|].
   destruct (get_object s0 sb sk) as [e|v sv] eqn:Eg; [discriminate|].
-  destruct (put_object s0 b k (vd_body v) (merge_meta m (vd_meta v))) as [s2 [[e|] vid]] eqn:Ep; [discriminate|].
+  destruct (put_object s0 b k (vd_body v) (carry_meta s0 b k (merge_meta m (vd_meta v)))) as [s2 [[e|] vid]] eqn:Ep; [discriminate|].
   intros H; inversion H; subst; clear H.
   split; [|split].
   - exists v, sv. split; [|reflexivity].
@@ -846,19 +851,23 @@ Proof.
 Qed.
 
 (* copy: the destination carries the metadata of the copy request, completed by the source's
-   (the ACL excepted); the source object, metadata included, is untouched (see [law_copy]) *)
+   (the ACL excepted), completed in turn by the replaced destination object's ([carry_meta]); the source object, metadata included, is untouched (see [law_copy]) *)
 Lemma law_copy_meta c s sb sk b k m s1 body :
   step c s (OCopy sb sk b k m) = (s1, RCopy body) ->
   exists v sv v' sv', get_object s sb sk = OObj v sv /\ get_object s1 b k = OObj v' sv' /\
-                      vd_meta v' = merge_meta m (vd_meta v) /\ vd_marker v' = false.
+                      vd_meta v' = carry_meta (fst (ensure_bucket c s b)) b k (merge_meta m (vd_meta v)) /\
+                      (forall kv, In kv (merge_meta m (vd_meta v)) -> In kv (vd_meta v')) /\
+                      vd_marker v' = false.
 Proof.
   cbn [step]. destruct (ensure_bucket c s b) as [s0 [e|]] eqn:Ee; [discriminate|].
   destruct (get_object s0 sb sk) as [e|v sv] eqn:Eg; [discriminate|].
-  destruct (put_object s0 b k (vd_body v) (merge_meta m (vd_meta v))) as [s2 [[e|] vid]] eqn:Ep; [discriminate|].
+  destruct (put_object s0 b k (vd_body v) (carry_meta s0 b k (merge_meta m (vd_meta v)))) as [s2 [[e|] vid]] eqn:Ep; [discriminate|].
   intros H; inversion H; subst; clear H.
   destruct (get_after_put _ _ _ _ _ _ _ Ep) as (v' & sv' & Hg & _ & Hm & Hk).
-  exists v, sv, v', sv'. repeat split; try assumption.
-  destruct (ensure_bucket_get _ _ _ _ _ sb sk Ee) as [H1|(_ & _ & H1)]; congruence.
+  exists v, sv, v', sv'. cbn [fst].
+  split; [destruct (ensure_bucket_get _ _ _ _ _ sb sk Ee) as [H1|(_ & _ & H1)]; congruence|].
+  split; [exact Hg|]. split; [exact Hm|]. split; [|exact Hk].
+  intros kv Hin. rewrite Hm. apply carry_meta_keeps. exact Hin.
 Qed.
 
 (* a request header always wins over the source's value; what the request does not name is
@@ -896,7 +905,7 @@ Proof.
   - destruct (He b) as [[e'|] ->]; reflexivity.
   - reflexivity.
   - destruct (He b) as [[e'|] ->]; [reflexivity|].
-    destruct (put_object s b k body m) as [s2 [[e'|] vid]] eqn:Ep; cbn [fst snd]; [|discriminate].
+    destruct (put_object s b k body (carry_meta s b k m)) as [s2 [[e'|] vid]] eqn:Ep; cbn [fst snd]; [|discriminate].
     apply put_object_err in Ep. destruct Ep as [_ ->]. reflexivity.
   - destruct (He b) as [[e'|] ->]; [reflexivity|].
     destruct vid as [id|].
@@ -920,7 +929,7 @@ Proof.
   - destruct (He b) as [[e'|] ->]; [reflexivity|]. cbn [snd]. discriminate.
   - destruct (He b) as [[e'|] ->]; [reflexivity|].
     destruct (get_object s sb sk) as [e'|v sv]; [reflexivity|].
-    destruct (put_object s b k (vd_body v) (merge_meta m (vd_meta v))) as [s2 [[e'|] vid]] eqn:Ep; cbn [fst snd]; [|discriminate].
+    destruct (put_object s b k (vd_body v) (carry_meta s b k (merge_meta m (vd_meta v)))) as [s2 [[e'|] vid]] eqn:Ep; cbn [fst snd]; [|discriminate].
     apply put_object_err in Ep. destruct Ep as [_ ->]. reflexivity.
   - destruct (He b) as [[e'|] ->]; [reflexivity|].
     destruct (negb (cfg_versioned c)); [reflexivity|].
